@@ -79,7 +79,9 @@ def _alarm(signum, frame):
 def execute(prop, workload, seed=None, replay=None, params=None, keep_trace=True):
     """One run.  Returns a JSON-able outcome dict."""
     interpose.install()
-    base = tempfile.mkdtemp(prefix="xsim-{}-".format(os.getpid()), dir=XSIM_TMP)
+    # fixed-width name: pickled absolute paths must have the same length in every
+    # process, or write sizes (part of the event log) would depend on the pid
+    base = tempfile.mkdtemp(prefix="xsim-{:08d}-".format(os.getpid() % 10**8), dir=XSIM_TMP)
     tape = Tape(seed=seed, replay=replay)
     ctx = Ctx(prop, tape, base, params)
     calllog.reset()
@@ -165,7 +167,9 @@ def _worker(args):
     res = []
     for i in indices:
         seed = derive_seed(root_seed, prop, i)
-        o = execute(prop, workload, seed=seed, params=params,
+        p = dict(params or {})
+        p["run_index"] = i
+        o = execute(prop, workload, seed=seed, params=p,
                     keep_trace=True)
         slim = {
             "i": i, "seed": seed, "digest": o["digest"], "key": o["key"],
